@@ -314,6 +314,15 @@ def check_case(case):
     else:
         segarr, segrecs = make_segments(rows, case)
         tbl = reports.do_genemetrics(cnarr, segarr, thr, minp, case["skip_low"], case["male_ref"], case["female"])
+        # the sample sex left open: it is guessed once, from the bins, and that guess serves bins and segments alike (seeded
+        # change C16n let the segment table guess for itself, and a few short chrX losses made it guess otherwise)
+        guess = cnarr.guess_xx(case["male_ref"], verbose=False)
+        if guess is not None:
+            t_open = reports.do_genemetrics(cnarr, segarr, thr, minp, case["skip_low"], case["male_ref"], None)
+            t_given = reports.do_genemetrics(cnarr, segarr, thr, minp, case["skip_low"], case["male_ref"], bool(guess))
+            if not t_open.reset_index(drop=True).equals(t_given.reset_index(drop=True)):
+                bad("genemetrics-segments:sex-open", f"with the sample sex left open the table differs from the one with the sex guessed from the bins "
+                                                     f"({'female' if guess else 'male'}): {len(t_open)} vs {len(t_given)} rows")
         exp_g = []
         for s in segrecs:
             slog = s["log2"] + (xshift if s["chromosome"].endswith("X") else 0.0)
